@@ -69,3 +69,44 @@ Example C05_nonvacuous : wf_node ex_ct ex_tree = true /\ size ex_tree = 5
   /\ option_map (map (fun ti => addr (ti_node ti))) (dfs ex_ct (fun _ => false) (fun _ => true) 5 true ex_tree) = Some [2; 3; 1; 4]
   /\ option_map (map (fun ti => addr (ti_node ti))) (bfs ex_ct (fun _ => false) (fun _ => true) 5 ex_tree) = Some [1; 4; 2; 3].
 Proof. vm_compute. repeat split. Qed.
+
+(* non-vacuity witnesses *)
+From Oak Require Import Proofs.C05Witness.
+(* the premise wf_node of C05_dfs_pre, C05_dfs_post, C05_bfs, C05_visits_all, C05_infos_direct: a table with a subclass
+   (B extends A: merged fields x c t y u), a three-level tree of 7 nodes; the three orders differ and prune / filter act *)
+Theorem C05_ex_wf :
+  wf_node w5_ct w5_tree = true /\ size w5_tree = 7
+  /\ fields_of w5_ct (lit "B") = [w5_fd "x" RProp; w5_fd "c" (RChild (KOpt true)); w5_fd "t" (RChild KTup);
+                                    w5_fd "y" RProp; w5_fd "u" (RChild (KOpt false))]
+  /\ w5_addrs (dfs w5_ct w5_none w5_all 7 false w5_tree) = Some [1; 2; 3; 5; 4; 6]
+  /\ w5_addrs (dfs w5_ct w5_none w5_all 7 true w5_tree) = Some [2; 3; 5; 1; 4; 6]
+  /\ w5_addrs (bfs w5_ct w5_none w5_all 7 w5_tree) = Some [1; 4; 6; 2; 3; 5]
+  /\ w5_addrs (dfs w5_ct w5_prune w5_all 7 false w5_tree) = Some [1; 4; 6]
+  /\ w5_addrs (dfs w5_ct w5_none w5_filt 7 false w5_tree) = Some [2; 4; 6]
+  /\ w5_addrs (bfs w5_ct w5_prune w5_filt 7 w5_tree) = Some [4; 6].
+Proof. exact w5_wf. Qed.
+(* C05_gather: exact and subclass matching differ on this tree *)
+Theorem C05_ex_gather :
+  wf_node w5_ct w5_tree = true
+  /\ option_map (map addr) (gather w5_ct 7 [lit "A"] false w5_all w5_none w5_tree) = Some [1; 2; 3; 5; 4; 6]
+  /\ option_map (map addr) (gather w5_ct 7 [lit "A"] true w5_all w5_none w5_tree) = Some [2; 3; 5; 4; 6]
+  /\ option_map (map addr) (gather w5_ct 7 [lit "B"] false w5_filt w5_none w5_tree) = Some []
+  /\ option_map (map addr) (gather w5_ct 7 [lit "B"; lit "Q"] false w5_all w5_prune w5_tree) = Some [1].
+Proof. exact w5_gather. Qed.
+(* C05_dfs_td_spec, C05_dfs_bu_spec: a three-entry stack with pending descendants, a non-empty accumulator, fuel = work *)
+Theorem C05_ex_stack :
+  wfs w5_ct w5_stack /\ work w5_stack <= 6 /\ length w5_stack = 3 /\ work w5_stack = 6
+  /\ w5_addrs (dfs_td w5_ct w5_prune w5_filt 6 w5_stack w5_acc) = Some [3; 4; 6]
+  /\ w5_addrs (dfs_td w5_ct w5_none w5_filt 6 w5_stack w5_acc) = Some [3; 2; 4; 6]
+  /\ w5_addrs (dfs_bu w5_ct w5_none w5_all 6 w5_stack w5_acc) = Some [6; 4; 2; 3; 5; 1; 3].
+Proof. exact w5_stack_ok. Qed.
+(* C05_no_self, C05_info_sound, C05_info_sound_post: element 1 of a tuple two levels down is yielded (and is not
+   when its parent is pruned); its parent is not the start node *)
+Theorem C05_ex_member :
+  wf_node w5_ct w5_tree = true
+  /\ In w5_ti_3 (pre w5_none w5_odd w5_tree) /\ In w5_ti_3 (post w5_none w5_odd w5_tree)
+  /\ In w5_ti_mid (pre w5_prune w5_odd w5_tree)
+  /\ ~ In w5_ti_3 (pre w5_prune w5_odd w5_tree)
+  /\ size (ti_node w5_ti_3) = 1 /\ ti_parent w5_ti_3 <> w5_tree
+  /\ child_at (ti_parent w5_ti_3) (ti_field w5_ti_3) (ti_index w5_ti_3) = Some (w5_leaf 3).
+Proof. exact w5_member. Qed.
